@@ -707,6 +707,20 @@ func streamOpl(t *testing.T, o *Out) {
 				continue
 			}
 			emitRef(nextID("r"), rc, "gen=refmut")
+		case c == 18 && i%2000 == 318:
+			// a document of more than 1 MiB whose diagnosis lies behind the first MiB
+			o.Count("gen:huge:beyond-1MiB")
+			pad := 1<<20 + 5000 + r.Intn(50000)
+			var d string
+			switch r.Intn(3) {
+			case 0:
+				d = "/*" + strings.Repeat("x", pad) + "*/ class U implements Namespace {} class"
+			case 1:
+				d = strings.Repeat(" \n", pad/2) + "class U implements Namespace { related: { a: Nope[] } }"
+			default:
+				d = "class U implements Namespace {}\n//" + strings.Repeat("y", pad) + "\nclass V implements Namespace { related: { u: U[], w: W[] } }"
+			}
+			emitParse("h", d, "gen=huge")
 		case c == 17 && i%100 == 17:
 			sz := []int{1000, 10000, 100000}[r.Intn(3)]
 			o.Count(fmt.Sprintf("gen:huge:%d", sz))
